@@ -101,6 +101,8 @@ class Typer:
                 return None
             if isinstance(e.op, ast.FloorDiv) and l in ("I", "C") and r in ("I", "C"):
                 return "I"
+            if isinstance(e.op, (ast.BitOr, ast.BitAnd, ast.BitXor)) and l in ("I", "C") and r in ("I", "C"):
+                return "I"                  # element-wise and / or of masks (same as np.logical_or / np.logical_and)
             return None
         if isinstance(e, ast.Compare):
             return "I"
